@@ -259,4 +259,68 @@ def run(ctx, prog, res):
              "Schedule::insert has a way out that returns the receiver itself (%s): its periods were not cut against the inserted range, so a neighbour that overlaps it stays - overlapping periods, and the earlier kind wins on the overlap" % in_place, lib.where_of(ins))
     r8.floor(3)
 
+    # R10 ------------------------------------------------------------------------------------
+    r10 = res.rule("C14.R10", "the inserted range wins against *every* earlier period it meets: each vector `insert` collects from the receiver's periods comes through an element-wise stage (map / filter_map) whose closure cuts the period against the inserted range - `end <- min(end, inserted.start)` for the periods kept before it, `start <- max(start, inserted.end)` for those kept after it - so no period reaches the result uncut; both cuts exist")
+    cuts_seen = set()
+    n_coll = 0
+    for bb, t in ins.calls():
+        if not (flow.call_name(t) or "").endswith("Iterator::collect"):
+            continue
+        # walk the adaptor chain back to its source
+        stages = []
+        cur = t["args"][0]
+        src = None
+        for _ in range(12):
+            calls = flow.origin_calls(ins, cur)
+            if len(calls) != 1:
+                src = flow.shape(ins, cur, depth=4)
+                break
+            c = calls[0]
+            nm = flow.call_names(c)[0]
+            if nm.startswith("core::iter::traits::iterator::Iterator::"):
+                stages.append((nm.split("::")[-1], c))
+                cur = c["args"][0]
+            elif re.search(r"(::into_iter|::iter|::iter_mut|::drain)$", nm):
+                cur = c["args"][0]
+            else:
+                src = flow.shape(ins, cur, depth=4)
+                break
+        while src is not None:
+            mm = re.fullmatch(r"[\w:<>]*::(?:iter|into_iter|iter_mut|drain|cloned|copied)\((.*)\)", src)
+            if not mm:
+                break
+            src = mm.group(1)
+        if src is None or not re.fullmatch(r"\*?p1(\.inner)?", src):
+            continue  # not collected from the receiver's periods
+        n_coll += 1
+        cut = None
+        for kind, c in stages:
+            if kind not in ("map", "filter_map") or len(c["args"]) != 2:
+                continue
+            clo = flow.closure_of_operand(ins, c["args"][1])
+            if clo not in prog.fns:
+                continue
+            caps = [flow.shape(ins, x, depth=6) for x in flow.closure_captures(ins, c["args"][1])]
+            for dst, val, _ in flow.stores(prog.fns[clo]):
+                m = re.fullmatch(r"(?:\w+::)*(min|max)\((.*), (.*)\)", val)
+                if not m:
+                    continue
+                args = {m.group(2), m.group(3)}
+                capref = [a for a in args if re.fullmatch(r"\*?p1\.(\d+)", a)]
+                if len(capref) != 1 or dst not in args:
+                    continue
+                k = int(re.search(r"(\d+)$", capref[0]).group(1))
+                cap = caps[k] if k < len(caps) else "?"
+                if m.group(1) == "min" and dst == "p2.range.end" and cap == "p2.range.start":
+                    cut = "before"
+                elif m.group(1) == "max" and dst == "p2.range.start" and cap == "p2.range.end":
+                    cut = "after"
+        if cut:
+            cuts_seen.add(cut)
+        r10.check(cut is not None, {"collect_in_block": bb, "source": src, "stages": [k for k, _ in reversed(stages)], "every_element_cut": cut}, "C14.R10:uncut:%s" % ",".join(k for k, _ in reversed(stages)),
+                  "Schedule::insert collects periods of the receiver (%s) without cutting each of them against the inserted range: a period that overlaps the inserted range and is not the one treated afterwards stays whole - overlapping periods, the earlier kind shows through" % " -> ".join(k for k, _ in reversed(stages)), lib.where_of(ins, t))
+    r10.check(cuts_seen == {"before", "after"}, {"cuts": sorted(cuts_seen)}, "C14.R10:both-cuts",
+              "Schedule::insert does not cut the receiver's periods on both sides of the inserted range (found: %s)" % sorted(cuts_seen), lib.where_of(ins))
+    r10.floor(3)
+
     witness.run_doctests(ctx, prog, res, "C14.W", "outside the crate a Schedule cannot be built from raw ranges nor its vector reached; twins compile", "c14", floor=4)
